@@ -241,8 +241,9 @@ func (x *Exec) typeInv(v Term, t types.Type) Term {
 		// strings.Builder / bytes.Buffer: modelled as their byte sequence
 		return And(Cmp(">=", x.W.SeqLen(v), IntLit(0)), Cmp(">=", x.W.SeqOff(v), IntLit(0)))
 	}
-	ovf := x.cx != nil && x.cx.fc != nil && x.cx.fc.Flags["overflow"]
+	ovf := x.cx != nil && x.cx.fc != nil && (x.cx.fc.Flags["overflow"] || os.Getenv("GOCV_OVERFLOW") != "")
 	maxInt := T("9223372036854775807", SInt)
+	maxLen := T("281474976710656", SInt) // 2^48: no slice or string is longer (address-space bound)
 	switch u := t.Underlying().(type) {
 	case *types.Basic:
 		if lo, hi, ok := intRange(u); ok {
@@ -254,13 +255,13 @@ func (x *Exec) typeInv(v Term, t types.Type) Term {
 		}
 		if u.Info()&types.IsString != 0 {
 			if ovf {
-				return And(Cmp(">=", x.W.SeqLen(v), IntLit(0)), Cmp(">=", x.W.SeqOff(v), IntLit(0)), Cmp("<=", x.W.SeqLen(v), maxInt))
+				return And(Cmp(">=", x.W.SeqLen(v), IntLit(0)), Cmp(">=", x.W.SeqOff(v), IntLit(0)), Cmp("<=", x.W.SeqLen(v), maxLen))
 			}
 			return And(Cmp(">=", x.W.SeqLen(v), IntLit(0)), Cmp(">=", x.W.SeqOff(v), IntLit(0)))
 		}
 	case *types.Slice:
 		if ovf {
-			return And(Cmp(">=", x.W.SeqLen(v), IntLit(0)), Cmp(">=", x.W.SeqOff(v), IntLit(0)), Cmp("<=", x.W.SeqLen(v), maxInt))
+			return And(Cmp(">=", x.W.SeqLen(v), IntLit(0)), Cmp(">=", x.W.SeqOff(v), IntLit(0)), Cmp("<=", x.W.SeqLen(v), maxLen))
 		}
 		return And(Cmp(">=", x.W.SeqLen(v), IntLit(0)), Cmp(">=", x.W.SeqOff(v), IntLit(0)))
 	case *types.Pointer:
